@@ -362,6 +362,9 @@ pub struct Sim {
     pub enabled: bool,
     /// Poison free CQ slots so that reading an unpublished slot is visible.
     pub poison_free_slots: bool,
+    /// Fault injection: the next `io_uring_enter` with GETEVENTS first posts these completions and
+    /// then fails with this errno (EAGAIN, EBUSY, ENOMEM: the kernel did its work, the call failed).
+    pub fail_next_enter: Option<(i32, Vec<Cqe>)>,
     pub dead: bool,
     /// `Ev::Close` has been logged (the ring descriptor was found closed by a later ring call).
     pub close_logged: bool,
@@ -873,6 +876,7 @@ unsafe fn hook_setup(entries: c_uint, p: *mut c_void) -> Option<c_int> {
         sq_ghost_head: 0,
         enabled: flags & SETUP_R_DISABLED == 0,
         poison_free_slots: false,
+        fail_next_enter: None,
         dead: false,
         close_logged: false,
         pbuf_unregistered_after_free: Vec::new(),
@@ -927,6 +931,15 @@ unsafe fn hook_enter(
         };
         sim.flush_overflow();
         sim.poison_released();
+        if flags & ENTER_GETEVENTS != 0 {
+            if let Some((e, cqes)) = sim.fail_next_enter.take() {
+                for c in cqes {
+                    sim.post(c);
+                }
+                sim.log.push(Ev::Enter { to_submit, min_complete, flags, timeout, res: -e });
+                return err(e);
+            }
+        }
         if flags & ENTER_GETEVENTS == 0 || min_complete == 0 || sim.cq_ready() > 0 {
             sim.log.push(Ev::Enter { to_submit, min_complete, flags, timeout, res: submitted as i32 });
             return Some(submitted as c_int);
